@@ -49,6 +49,10 @@ CHECKS = {
    technique=TECH + "converter runs with injected boundary-landing price faults for Renko (price exactly on / one ulp below / above the next brick boundary read from the live serialized state, k bricks away, multi-brick jumps, reversals), exactly-once-emission and conservation oracles; CollapseTimeframe streaming vs batch collapse on the whole stream and seeded sub-ranges; HeikinAshi validity monitor",
    text="Seeded search over candle streams, periods 1..40, brick sizes in [eps,1) and all price sources; per-step oracles: no panic, emission iff boundary reached, contiguity, equal relative size, one direction, volume conservation, iterator consistency; collapse aggregation and batch/streaming equality.",
    note="Boundaries are read from Renko's serialized state through the serde seam (no hook). The aggregated OHLCV view of RenkoOutput is outside the property's statement and only counted as an observation (its close() is base + size*len although bricks are relative)."),
+ "C12": dict(level="exploration", design="§4 C12",
+   technique=TECH + "invariant monitors evaluated at every step of seeded indicator/method runs while the feed injects the regimes the property names: volatile -> exactly flat (stuck feed longer than every window, degenerate bars) -> volatile, zero-volume bars, spikes and scale jumps (reduced fit: monitoring of state machines under feed faults, no schedule)",
+   text="Interval / ordering / containment / sign / finiteness predicates for the 14 range-documented indicators, 6 methods, clv and tr on every step; finiteness for all 36 indicators. Allowances: 64*u*(n+t) for unit-interval ratios (scaled by M_history/denominator for ratios of running sums, NOT relaxed on exactly flat windows), times price scale for orderings.",
+   note="Value-slot meanings from DESIGN.md App. B. RSI/Stochastic/SMI/Envelopes range monitors only for MA kinds that cannot overshoot; volume-based sources exempt; finiteness exempt where the formula is undefined (zero window volume, correlation of a constant window)."),
 }
 NA = {
  "C16": "Action algebra is a total, stateless algebra over a finite domain: no history, state, fault, replica or schedule for a simulator to drive; the fitting technique (exhaustive enumeration) is model checking, which this task excludes (DESIGN.md §5).",
